@@ -126,13 +126,15 @@ def _must_merge(loop, func, merges, sym, targets=()):
 
 
 def run(cx):
+    cx.guard(common_prefix_rule, cx, "R02g")
     repo = cx.repo
     for r, t in (("R02a", "nullable set: least fixpoint of 'some production has only nullable symbols'"),
                  ("R02b", "FIRST constraints"),
                  ("R02c", "FOLLOW constraints (immediate follows, inclusion edges only from the owner, $END$ seed, closure)"),
                  ("R02d", "predict table = FIRST of the nullable-prefix walk, plus FOLLOW(owner) when all nullable; alternatives in priority order"),
                  ("R02e", "table writer and reader use the same (symbol, token) key"),
-                 ("R02f", "ambiguity report: some entry has more or fewer than one alternative")):
+                 ("R02f", "ambiguity report: some entry has more or fewer than one alternative"),
+                 ("R02g", "factorisation keeps the language: the factored prefix is common to all alternatives of the group")):
         cx.rule(r, t)
     nul = cx.func(REL, "LLParser._get_nullables", "R02a")
     first = cx.func(REL, "LLParser._calc_first_sets", "R02b")
@@ -390,3 +392,99 @@ def _fixpoint_loop(cx, rule, func, inner, what):
                 (isinstance(s, ast.AugAssign) and is_name(s.target, flag) and isinstance(s.op, ast.BitOr))]
         ok = len(resets) == 1 and len(sets) >= 1
     cx.ob(rule, w[0] if w else func, ok, f"{what} rounds repeat until no set changed" if ok else f"{what} iteration does not run to a fixpoint (change flag / break altered)", stmt=f"{what} fixpoint")
+
+
+def _deps(expr, body_assigns, seen=None):
+    """Names an expression depends on, transitively through assignments made in the same loop body (flow-insensitive)."""
+    seen = set() if seen is None else seen
+    out = set()
+    for n in ast.walk(expr):
+        if isinstance(n, ast.Name) and isinstance(n.ctx, ast.Load) and n.id not in seen:
+            seen.add(n.id)
+            out.add(n.id)
+            for v in body_assigns.get(n.id, ()):
+                out |= _deps(v, body_assigns, seen)
+    return out
+
+
+def common_prefix_rule(cx, rule):
+    """_factorize_common_prefix_prods replaces  X -> p a1 | p a2 | ..  by  X -> p X'  with  X' -> a1 | a2 | ..  The language
+    (and every derivation) is kept only if p is a prefix of EVERY alternative of the group.  Decided structurally:
+      recognised:  p starts as a prefix of the first alternative no longer than the shortest one, and is afterwards only
+                   narrowed to prefixes of itself, each other alternative being compared with p position by position and p cut
+                   at the first difference;
+      refuted:     p is overwritten inside the loop over the alternatives by a value that does not depend on anything carried
+                   over from earlier iterations (the result then reflects the last alternatives only);
+      otherwise:   undecided."""
+    f = cx.func(REL, "LLParser._factorize_common_prefix_prods", rule)
+    chunk = params(f)[3]
+    grp = [v for _, v in assignments(f, "group_prod_rule") if v is not None]
+    cx.need(len(grp) == 1 and isinstance(grp[0], ast.Call) and len(grp[0].args) >= 2, rule, f, "group production")
+    m = [n.id for n in ast.walk(grp[0].args[1]) if isinstance(n, ast.Name) and n.id not in ("tuple", "list", "grp_symbol_suffix")]
+    cx.need(len(m) == 1, rule, f, "name of the factored prefix")
+    cp = m[0]
+    assigns = [(st, v) for st, v in assignments(f, cp) if v is not None]
+    cx.need(assigns, rule, f, f"assignments of `{cp}`")
+    loops = [l for l in f.body if isinstance(l, ast.For) and chunk in names_in(l.iter)]
+    # ---- definite flaw: overwritten in the loop without loop-carried dependence
+    for l in loops:
+        body_assigns = {}
+        for n in ast.walk(l):
+            if isinstance(n, ast.Assign):
+                for t in n.targets:
+                    for x in ast.walk(t):
+                        if isinstance(x, ast.Name):
+                            body_assigns.setdefault(x.id, []).append(n.value)
+            elif isinstance(n, ast.AugAssign) and isinstance(n.target, ast.Name):
+                body_assigns.setdefault(n.target.id, []).append(ast.BinOp(left=ast.Name(id=n.target.id, ctx=ast.Load()), op=n.op, right=n.value))
+        loop_targets = {x.id for ll in ast.walk(l) if isinstance(ll, (ast.For, ast.comprehension)) for x in ast.walk(ll.target) if isinstance(x, ast.Name)}
+        # variables reset at the top of the body before any use carry nothing over
+        reset = set()
+        for st in l.body:
+            if isinstance(st, ast.Assign) and len(st.targets) == 1 and isinstance(st.targets[0], ast.Name) and st.targets[0].id not in names_in(st.value):
+                reset.add(st.targets[0].id)
+            else:
+                break
+        carried = {v for v in body_assigns if v not in loop_targets and v not in reset}
+        for st, v in assigns:
+            if not any(a is l for a in ancestors(st)):
+                continue
+            d = _deps(v, {k: vs for k, vs in body_assigns.items() if k != cp})
+            if not (d & carried) and cp not in d:
+                cx.ob(rule, st, False, f"`{cp}` is overwritten for each alternative by `{norm(v)[:60]}`, which depends on nothing carried over from earlier alternatives "
+                      f"(only on {sorted(d - {'len', 'list', 'tuple', 'zip', 'enumerate', 'min'})}): the factored prefix is that of the last alternatives compared, "
+                      "not one common to the whole group - alternatives that do not start with it are rewritten to start with it")
+                return
+    # ---- recognised shape
+    init = [(st, v) for st, v in assigns if not any(isinstance(a, (ast.For, ast.While)) for a in ancestors(st))]
+    inl = [(st, v) for st, v in assigns if any(isinstance(a, (ast.For, ast.While)) for a in ancestors(st))]
+    ok_init = False
+    mx = None
+    if init:
+        v0 = init[0][1]
+        while isinstance(v0, ast.Call) and call_name(v0) in ("list", "tuple") and len(v0.args) == 1:
+            v0 = v0.args[0]
+        if isinstance(v0, ast.Subscript) and norm(v0.value) == f"{chunk}[0].production" and isinstance(v0.slice, ast.Slice) and v0.slice.lower is None and isinstance(v0.slice.upper, ast.Name):
+            mx = v0.slice.upper.id
+            mv = [x for _, x in assignments(f, mx) if x is not None]
+            ok_init = len(mv) == 1 and norm(mv[0]) in (f"min(len(r.production) for r in {chunk})", f"min((len(r.production) for r in {chunk}))", f"min([len(r.production) for r in {chunk}])")
+    if not ok_init or len(init) != 1 and not all(norm(v) in (f"list({cp})", f"tuple({cp})") for _, v in init[1:]):
+        raise AnalysisError(rule, f"{REL}::_factorize_common_prefix_prods", f"initial value of `{cp}` is not `first alternative[:shortest length]`: not decided")
+    cx.ob(rule, init[0][0], True, "starts as the first alternative cut to the length of the shortest one")
+    narrow = [(st, v) for st, v in inl if isinstance(v, ast.Subscript) and is_name(v.value, cp) and isinstance(v.slice, ast.Slice) and v.slice.lower is None and v.slice.step is None]
+    if len(narrow) != len(inl) or len(inl) != 1:
+        raise AnalysisError(rule, f"{REL}::_factorize_common_prefix_prods", f"`{cp}` is updated in a way that is not a narrowing `{cp}[:i]`: not decided")
+    st, v = narrow[0]
+    inner = next((a for a in ancestors(st) if isinstance(a, ast.For)), None)
+    outer = next((a for a in ancestors(inner) if isinstance(a, ast.For)), None) if inner is not None else None
+    ok = inner is not None and outer is not None and norm(outer.iter) in (f"{chunk}[1:]", chunk) and isinstance(outer.target, ast.Name) \
+        and norm(inner.iter) == f"enumerate(zip({cp}, {outer.target.id}.production))" and isinstance(inner.target, ast.Tuple) and len(inner.target.elts) == 2 \
+        and isinstance(inner.target.elts[1], ast.Tuple) and is_name(v.slice.upper, norm(inner.target.elts[0]))
+    if ok:
+        a, b = [norm(x) for x in inner.target.elts[1].elts]
+        g = parent(st)
+        ok = isinstance(g, ast.If) and norm(g.test) in (f"{a} != {b}", f"{b} != {a}", f"not {a} == {b}") and parent(g) is inner and len(inner.body) == 1 \
+            and isinstance(g.body[-1], ast.Break) and g.body[0] is st and not g.orelse
+    if not ok:
+        raise AnalysisError(rule, f"{REL}::_factorize_common_prefix_prods", "comparison loop not recognised: not decided")
+    cx.ob(rule, st, True, "every other alternative is compared with the prefix position by position; the prefix is cut at the first difference (it only ever shrinks to a prefix of itself)")
